@@ -201,7 +201,7 @@ class ExprMixin:
 
     # ------------------------------------------------------------------ main dispatcher
     def ev(self, e, st):
-        if self.c.names and isinstance(e, (ast.Call, ast.Attribute, ast.Subscript, ast.BinOp)):
+        if self.c.names and isinstance(e, (ast.Call, ast.Attribute, ast.Subscript, ast.BinOp, ast.ListComp, ast.DictComp, ast.SetComp)):
             # whole-expression resolution declared by the contract (module constants, external calls with awkward syntax)
             r = self.c.names.get('expr:' + ast.unparse(e))
             if r is not None:
@@ -239,6 +239,10 @@ class ExprMixin:
         if name in self.c.names:
             return self.c.names[name]
         return getattr(self.reg, 'global_names', {}).get(name)
+
+    def ev_Lambda(self, e, st):
+        # a function value that is only stored / passed on: opaque
+        yield SV(ANY, fresh('lambda', AnyS)), st
 
     def ev_Tuple(self, e, st):
         for vs, s in self.ev_many(e.elts, st):
